@@ -115,23 +115,27 @@ def gen_op(rng, c, n):
     b = base_of(c)
     r = rng.random()
     arg = rng.choice(["obj", "plain"])
-    if r < 0.3:
+    if r < 0.28:
         return rng.choice(COPY_OPS)
-    if r < 0.45 and is_prof(c):
-        # construction from the object with an explicit validation flag (off->on and on->off transitions)
-        return ["ctor_val", rng.choice([1, 1, 0])]
-    if r < 0.6 and is_prof(c):
-        # satisfaction profile of the profile: the method, and the constructors given profile= / multiprofile=
-        return ["as_sat", rng.choice([0, 1, 1, 2])]
-    if r < 0.4 and c in MUTATORS:
-        return ["mutate", rng.choice(MUTATORS[c])]
-    if r < 0.45 and base_of(c) not in ("tuple",):
-        return ["clear"]
-    if r < 0.5 and c in ("SatisfactionProfile", "SatisfactionMultiProfile"):
-        return ["remove_satisfied"]
-    if r < 0.53 and ("Profile" in c):
-        # the linked instance is emptied (0, 2) / refilled (1) in place: an Instance without projects is falsy
-        return ["inst_mut", rng.choice([0, 0, 1, 2])]
+    if is_prof(c):
+        if r < 0.38:
+            # construction from the object with an explicit validation flag (off->on and on->off transitions)
+            return ["ctor_val", rng.choice([1, 1, 0])]
+        if r < 0.45:
+            # satisfaction profile of the profile: the method, and the constructors given profile= / multiprofile=
+            return ["as_sat", rng.choice([0, 1, 1, 2])]
+        if r < 0.51:
+            # the linked instance is emptied (0, 2) / refilled (1) in place: an Instance without projects is falsy
+            return ["inst_mut", rng.choice([0, 0, 1, 2])]
+        if r < 0.54:
+            return ["clear"]
+    else:
+        if r < 0.38 and c in MUTATORS:
+            return ["mutate", rng.choice(MUTATORS[c])]
+        if r < 0.43 and b != "tuple":
+            return ["clear"]
+        if r < 0.5 and c in ("SatisfactionProfile", "SatisfactionMultiProfile"):
+            return ["remove_satisfied"] if rng.random() < 0.6 else ["inst_mut", rng.choice([0, 1, 2])]
     if b == "set":
         x = rng.random()
         if x < 0.35:
